@@ -141,6 +141,28 @@ func SpecSpace(quick bool, yield func(sp *Spec, family string)) {
 		}
 	}
 	rec(maxDecls)
+	// 2b. token values that look like something else (a predefined name, a keyword, a directive, a token or rule name,
+	// punctuation, brackets, the other kind of delimiter): the value is the text between the delimiters, the kind is the
+	// kind of the delimiters - declared before and after its use, with and without a second token of the other kind
+	for _, v := range []string{"$ID", "$NOPE", "$", "$ID$", "@left", "grammar", "VV", "start", "< start >", "=", ";", "|", "{{ a }}", "[ab]", "( a )", "a b", " a ", "\\\\", "#", "// c", "/* c */", "*"} {
+		for _, kind := range []int{DefString, DefRegex} {
+			val := v
+			if kind == DefRegex && (val == "// c" || val == "/* c */" || val == "*") {
+				continue // would not be a pattern token for the scanner
+			}
+			vv := &Tok{Name: "VV"}
+			decl := &TokenDecl{Name: "VV", Kind: kind, Value: val, Semi: true}
+			rule := &Rule{LHS: "start", RHS: &Cat{Ops: []Expr{vv, a}}}
+			for _, decls := range [][]Decl{{decl, rule}, {rule, decl}, {decl, &TokenDecl{Name: "ID", Kind: DefPredef, Value: "$ID", Semi: true}, rule}} {
+				sp := &Spec{Name: "g", NameSemi: true, Decls: decls}
+				back, err := ParseSpec(sp.Text())
+				if err != nil || len(back.Decls) != len(decls) {
+					continue
+				}
+				yield(sp, "look_alike_values")
+			}
+		}
+	}
 	// 3. bracket nestings
 	wrap := []func(Expr) Expr{
 		func(x Expr) Expr { return &Group{x} }, func(x Expr) Expr { return &Opt{x} },
